@@ -158,7 +158,8 @@ class Enc:
         self.contracts = dict(hashjoin_null_eq=True, semijoin_null_eq=True, mergejoin_null_eq=True, count_distinct_counts_null=False)
         if contracts:
             self.contracts.update(contracts)
-        self.no_ties = False
+        self.engine = 'mem'
+        self.no_ties = False   # (kept for callers; ties are excluded exactly where a LIMIT cuts a sorted relation)
         self.scan_ranges = None  # optional {filter_text: range dict} -> scan filters read as KeyRanges (C13)
         for t, cols in tables.items():
             rows = []
@@ -397,13 +398,17 @@ class Enc:
             idx.append(names.index(c))
         types = [self.tabtypes[t][i][1] for i in idx]
         r = Rel(list(cols), [(pr, [vals[i] for i in idx]) for pr, vals in self.tabs[t]], types)
+        pk = [i for i, col in enumerate(self.tabtypes[t]) if len(col) > 3 and col[3]]
+        if self.engine == 'disk' and self.contracts.get('disk_scan_sorted_by_pk') and pk and all(i in idx for i in pk):
+            # storage contract (probed): a disk scan that includes the primary key returns rows in key order
+            r.okeys = [[(vals[i], False) for i in pk] for pr, vals in self.tabs[t]]
         f = p[3]
         if f not in ('true', 'null'):
             if self.scan_ranges is not None:
                 keep = self.range_keep(show(f), r, t)
             else:
                 keep = lambda row: istrue(self._bool(self.expr(f, r, row, outer)))
-            r = Rel(r.schema, [(And(pr, keep(row)), row) for pr, row in r.rows], types)
+            r = Rel(r.schema, [(And(pr, keep(row)), row) for pr, row in r.rows], types, r.okeys)
         return r
 
     def range_keep(self, ftext, r, t):
@@ -523,8 +528,9 @@ class Enc:
         return And(Not(a.n), Not(b.n), as_int(a) == as_int(b))
 
     def p_hashjoin(self, p, outer, merge=False):
-        jt, on, lk, rk = p[1], p[2], lst(p[3]), lst(p[4])
-        L, R = self.plan(p[5], outer), self.plan(p[6], outer)
+        return self._hashjoin_on(p[1], p[2], lst(p[3]), lst(p[4]), self.plan(p[5], outer), self.plan(p[6], outer), outer, merge)
+
+    def _hashjoin_on(self, jt, on, lk, rk, L, R, outer, merge=False):
         both = Rel(L.schema + R.schema, None)
 
         def match(lr, rr):
@@ -535,12 +541,89 @@ class Enc:
         return self._join(jt, L, R, match)
 
     def p_mergejoin(self, p, outer):
-        # contract: same result as hashjoin *provided both inputs arrive sorted by their keys*
-        lk, rk = lst(p[3]), lst(p[4])
+        """MergeJoinExecutor. On inputs that come out of a sort the contract is: same result as the hash join provided
+        the sort orders by the join keys.  On inputs in physical order the executor's loop is simulated step by step
+        (runs of equal consecutive keys, two cursors), so that what it does on *unsorted* input is part of the model."""
+        jt, lk, rk = p[1], lst(p[3]), lst(p[4])
+        if jt not in ('inner', 'left_outer', 'right_outer', 'full_outer') or p[2] != 'true':
+            raise NotEncodable('mergejoin ' + str(jt))
         L, R = self.plan(p[5], outer), self.plan(p[6], outer)
-        self.requirements.append(('mergejoin left input sorted by ' + show(p[3]), self.is_sorted(L, lk, outer)))
-        self.requirements.append(('mergejoin right input sorted by ' + show(p[4]), self.is_sorted(R, rk, outer)))
-        return self.p_hashjoin(['hashjoin'] + p[1:], outer, merge=True)
+        if L.okeys is not None or R.okeys is not None:
+            self.requirements.append(('mergejoin left input sorted by ' + show(p[3]), self.is_sorted(L, lk, outer)))
+            self.requirements.append(('mergejoin right input sorted by ' + show(p[4]), self.is_sorted(R, rk, outer)))
+            return self._hashjoin_on(jt, 'true', lk, rk, L, R, outer, merge=True)
+        n, m = len(L.rows), len(R.rows)
+        kl = [[self.expr(k, L, row, outer) for k in lk] for _, row in L.rows]
+        kr = [[self.expr(k, R, row, outer) for k in rk] for _, row in R.rows]
+
+        def runs(rows, kv):
+            cnt = len(rows)
+            pr = [r[0] for r in rows]
+            same = lambda i, j: And([dveq(a, b) for a, b in zip(kv[i], kv[j])])
+            leader = []
+            for i in range(cnt):
+                cont = [And([pr[h]] + [Not(pr[k]) for k in range(h + 1, i)] + [same(h, i)]) for h in range(i)]
+                leader.append(And(pr[i], Not(Or(cont))) if cont else pr[i])
+
+            def member(a, j):
+                if j < a:
+                    return bv(False)
+                return And([pr[j], same(a, j)] + [Implies(pr[k], same(a, k)) for k in range(a + 1, j)])
+            nxt = [None] * cnt          # nxt[x] = smallest leader index > x, or cnt
+            for x in range(cnt - 1, -1, -1):
+                nxt[x] = IntVal(cnt) if x == cnt - 1 else If(leader[x + 1], x + 1, nxt[x + 1])
+            first = If(leader[0], 0, nxt[0]) if cnt else IntVal(0)
+            return leader, member, nxt, first
+        leadL, memL, nxtL, firstL = runs(L.rows, kl)
+        leadR, memR, nxtR, firstR = runs(R.rows, kr)
+
+        def sel(x, vals, cnt):
+            """vals[x] for symbolic x in 0..cnt-1 (arbitrary when out of range)."""
+            r = vals[cnt - 1]
+            for i in range(cnt - 2, -1, -1):
+                r = If(x == i, vals[i], r)
+            return r
+
+        def selkey(x, kv, cnt):
+            return [V(kv[0][c].t, sel(x, [kv[i][c].v for i in range(cnt)], cnt), sel(x, [kv[i][c].n for i in range(cnt)], cnt)) for c in range(len(kv[0]))]
+        nm = self.new('mj')
+        T = n + m
+        Lc = [Int('%s_l%d' % (nm, t)) for t in range(T + 1)]
+        Rc = [Int('%s_r%d' % (nm, t)) for t in range(T + 1)]
+        self.cons += [Lc[0] == firstL, Rc[0] == firstR]
+        match_t, advl_t, advr_t = [], [], []
+        null_eq = self.contracts['mergejoin_null_eq']
+        for t in range(T):
+            la, ra = Lc[t] < n, Rc[t] < m
+            kL, kR = selkey(Lc[t], kl, n), selkey(Rc[t], kr, m)
+            eq = And([dveq(a, b) for a, b in zip(kL, kR)])
+            hasnull = Or([a.n for a in kL])
+            lt = bv(False)
+            for a, b in reversed(list(zip(kL, kR))):
+                lt = Or(dvlt(a, b), And(dveq(a, b), lt))
+            is_match = And(la, ra, eq, bv(True) if null_eq else Not(hasnull))
+            only_l = And(la, Not(is_match), Or(Not(ra), lt, And(eq, Not(bv(null_eq)))))
+            only_r = And(ra, Not(is_match), Not(only_l), Or(Not(la), Not(Or(lt, eq))))
+            match_t.append(is_match), advl_t.append(only_l), advr_t.append(only_r)
+            self.cons.append(Lc[t + 1] == If(Or(is_match, only_l), sel(Lc[t], nxtL, n), Lc[t]))
+            self.cons.append(Rc[t + 1] == If(Or(is_match, only_r), sel(Rc[t], nxtR, m), Rc[t]))
+
+        def in_run(x, a_members, cnt, j):
+            return Or([And(x == a, a_members(a, j)) for a in range(cnt)])
+        out = []
+        for i in range(n):
+            for j in range(m):
+                hit = Or([And(match_t[t], in_run(Lc[t], memL, n, i), in_run(Rc[t], memR, m, j)) for t in range(T)])
+                out.append((hit, L.rows[i][1] + R.rows[j][1]))
+        nullL = [null(t) for t in (L.types or [None] * L.width())]
+        nullR = [null(t) for t in (R.types or [None] * R.width())]
+        if jt in ('left_outer', 'full_outer'):
+            for i in range(n):
+                out.append((Or([And(advl_t[t], in_run(Lc[t], memL, n, i)) for t in range(T)]), L.rows[i][1] + nullR))
+        if jt in ('right_outer', 'full_outer'):
+            for j in range(m):
+                out.append((Or([And(advr_t[t], in_run(Rc[t], memR, m, j)) for t in range(T)]), nullL + R.rows[j][1]))
+        return Rel(L.schema + R.schema, out, (L.types or [None] * L.width()) + (R.types or [None] * R.width()))
 
     def p_apply(self, p, outer):
         jt = p[1]
@@ -627,8 +710,9 @@ class Enc:
         return Rel([show(a) for a in aggs], [(bv(True), vals)], [v.t for v in vals])
 
     def p_hashagg(self, p, outer):
-        keys, aggs = lst(p[1]), lst(p[2])
-        c = self.plan(p[3], outer)
+        return self._hashagg(lst(p[1]), lst(p[2]), self.plan(p[3], outer), outer)
+
+    def _hashagg(self, keys, aggs, c, outer):
         n = len(c.rows)
         kv = [[self.expr(k, c, row, outer) for k in keys] for _, row in c.rows]
         same = lambda i, j: And([dveq(a, b) for a, b in zip(kv[i], kv[j])]) if keys else bv(True)
@@ -645,6 +729,12 @@ class Enc:
         (groups are maximal runs in slot order; on input sorted by the keys this coincides with hashagg)."""
         keys, aggs = lst(p[1]), lst(p[2])
         c = self.plan(p[3], outer)
+        if c.okeys is not None:
+            # input comes out of a sort: groups are right iff that sort orders by the grouping keys
+            self.requirements.append(('sortagg input sorted by ' + show(p[1]), self.is_sorted(c, keys, outer)))
+            r = self._hashagg(keys, aggs, c, outer)
+            r.okeys = c.okeys
+            return r
         n = len(c.rows)
         kv = [[self.expr(k, c, row, outer) for k in keys] for _, row in c.rows]
         pr = [r[0] for r in c.rows]
@@ -685,50 +775,30 @@ class Enc:
         return r
 
     def is_sorted(self, rel, ks, outer=()):
-        """Present slots appear in non-decreasing key order (NULL first, DataValue::cmp)."""
+        """The relation's logical row sequence is non-decreasing in ks (NULL first, DataValue::cmp).
+        A relation produced by a sort has its logical sequence defined by its own sort keys (slot order is then
+        meaningless); otherwise the logical sequence is the slot order."""
         n = len(rel.rows)
         kvs = [self._keyvals(rel, rel.rows[i][1], ks, outer) for i in range(n)]
         c = []
         for i in range(n):
-            for j in range(i + 1, n):
-                c.append(Implies(And(rel.rows[i][0], rel.rows[j][0]), self._lex_le(kvs[i], kvs[j])))
+            for j in range(n):
+                if i == j:
+                    continue
+                both = And(rel.rows[i][0], rel.rows[j][0])
+                if rel.okeys is not None:
+                    # i may precede j whenever okeys_i <= okeys_j: then ks_i <= ks_j is needed
+                    c.append(Implies(And(both, self._lex_le(rel.okeys[i], rel.okeys[j])), self._lex_le(kvs[i], kvs[j])))
+                elif i < j:
+                    c.append(Implies(both, self._lex_le(kvs[i], kvs[j])))
         return And(c) if c else bv(True)
 
     def sort(self, c, ks, outer=()):
-        n = len(c.rows)
+        """Permutation-free sort: rows stay in their slots, the logical sequence is declared to be `by okeys`."""
         if not ks:
             return c
-        if n <= 1:
-            c2 = Rel(c.schema, c.rows, c.types)
-            c2.okeys = [self._keyvals(c, row, ks, outer) for _, row in c.rows]
-            return c2
-        nm = self.new('perm')
-        perm = [Int('%s_%d' % (nm, j)) for j in range(n)]
-        self.cons += [And(x >= 0, x < n) for x in perm]
-        self.cons.append(Distinct(perm))
-
-        def pick(j, fn):
-            r = fn(n - 1)
-            for i in range(n - 2, -1, -1):
-                r = If(perm[j] == i, fn(i), r)
-            return r
-        pres = [pick(j, lambda i: c.rows[i][0]) for j in range(n)]
-        rows = []
-        for j in range(n):
-            row = []
-            for cc in range(c.width()):
-                t = c.rows[0][1][cc].t
-                row.append(V(t, pick(j, lambda i, cc=cc: c.rows[i][1][cc].v), pick(j, lambda i, cc=cc: c.rows[i][1][cc].n)))
-            rows.append(row)
-        out = Rel(c.schema, list(zip(pres, rows)), c.types)
-        kvs = [self._keyvals(out, rows[j], ks, outer) for j in range(n)]
-        for j in range(n - 1):
-            self.cons.append(Implies(pres[j + 1], pres[j]))               # present rows first
-            self.cons.append(Implies(pres[j + 1], self._lex_le(kvs[j], kvs[j + 1])))
-            if self.no_ties:
-                # assumption (stated bound): the sort keys totally order the rows, so which rows a LIMIT keeps is determined
-                self.cons.append(Implies(pres[j + 1], Not(self._lex_le(kvs[j + 1], kvs[j]))))
-        out.okeys = kvs
+        out = Rel(c.schema, c.rows, c.types)
+        out.okeys = [self._keyvals(c, row, ks, outer) for _, row in c.rows]
         return out
 
     def p_order(self, p, outer):
@@ -749,15 +819,28 @@ class Enc:
     def limit(self, c, lim, off, outer=()):
         l, o = self._count(lim, c, outer), self._count(off, c, outer)
         o = IntVal(0) if o is None else (o.v if isinstance(o, V) else o)
-        out, cnt = [], IntVal(0)
-        for pr, row in c.rows:
-            ok = cnt >= o
+
+        def window(pos):
+            ok = pos >= o
             if l is not None:
-                if isinstance(l, V):
-                    ok = And(ok, Or(l.n, cnt < o + l.v))
-                else:
-                    ok = And(ok, cnt < o + l)
-            out.append((And(pr, ok), row))
+                ok = And(ok, Or(l.n, pos < o + l.v)) if isinstance(l, V) else And(ok, pos < o + l)
+            return ok
+        out = []
+        n = len(c.rows)
+        if c.okeys is not None:
+            # position of a row = number of present rows strictly before it in key order; assumption (stated bound):
+            # the keys totally order the present rows, otherwise which rows a LIMIT keeps is unspecified
+            for i in range(n):
+                for j in range(i + 1, n):
+                    self.cons.append(Implies(And(c.rows[i][0], c.rows[j][0]),
+                                             Not(And(self._lex_le(c.okeys[i], c.okeys[j]), self._lex_le(c.okeys[j], c.okeys[i])))))
+            for i, (pr, row) in enumerate(c.rows):
+                pos = Sum([If(And(c.rows[j][0], Not(self._lex_le(c.okeys[i], c.okeys[j]))), 1, 0) for j in range(n) if j != i]) if n > 1 else IntVal(0)
+                out.append((And(pr, window(pos)), row))
+            return Rel(c.schema, out, c.types, c.okeys)
+        cnt = IntVal(0)
+        for pr, row in c.rows:
+            out.append((And(pr, window(cnt)), row))
             cnt = If(pr, cnt + 1, cnt)
         return Rel(c.schema, out, c.types, c.okeys)
 
@@ -853,3 +936,16 @@ def seq_eq_vals(A, valsA, B, valsB):
         for j, (pb, kb) in enumerate(rb):
             cons.append(Implies(And(pa, pb, ka == kb), And([dveq(x, y) for x, y in zip(valsA[i], valsB[j])])))
     return And(cons) if cons else bv(True)
+
+
+def ordered_eq(A, B):
+    """Both relations are sorted by their own keys: same rows *with* the same sort-key values (and directions)."""
+    if A.okeys is None or B.okeys is None:
+        return None
+    da = [d for _, d in A.okeys[0]] if A.okeys else []
+    db = [d for _, d in B.okeys[0]] if B.okeys else []
+    if da != db:
+        return bv(False)
+    A2 = Rel(A.schema, [(p, row + [k for k, _ in ks]) for (p, row), ks in zip(A.rows, A.okeys)])
+    B2 = Rel(B.schema, [(p, row + [k for k, _ in ks]) for (p, row), ks in zip(B.rows, B.okeys)])
+    return bag_eq(A2, B2)
